@@ -879,7 +879,7 @@ impl gen::CELVisitorCompat<'_> for Parser {
 
     fn visit_String(&mut self, ctx: &StringContext<'_>) -> Self::Return {
         let token = ctx.tok.as_deref().expect("Has to have string!");
-        match parse::parse_string(&ctx.get_text()) {
+        match parse::unquote_string(&ctx.get_text()) {
             Ok(string) => self
                 .helper
                 .next_expr(token, Expr::Literal(Val::String(string))),
@@ -894,7 +894,7 @@ impl gen::CELVisitorCompat<'_> for Parser {
     fn visit_Bytes(&mut self, ctx: &BytesContext<'_>) -> Self::Return {
         let token = ctx.tok.as_deref().expect("Has to have bytes!");
         let string = ctx.get_text();
-        match parse::parse_bytes(&string[2..string.len() - 1]) {
+        match parse::unquote_bytes(&string) {
             Ok(bytes) => self
                 .helper
                 .next_expr(token, Expr::Literal(Val::Bytes(bytes))),
